@@ -707,15 +707,18 @@ Proof.
   pose proof (inv_phase s' HI') as Hph. unfold phase in Hph. rewrite Hf, Hp in Hph. exact Hph.
 Qed.
 
-(* no send on a closed channel, mutual exclusion of the calls past their first step *)
+(* no send on a closed channel - no PauseCh is ever closed -, mutual exclusion of the calls past
+   their first step *)
 Lemma no_panic_lemma : forall n m ls s,
   run fixed (init n m) ls = Some s ->
   panic s = false /\
+  (forall w, w < nw s -> w_pclosed (wk s w) = false) /\
   forall c c', c < nc s -> c' < nc s -> active (ct s c) = true -> active (ct s c') = true -> c = c'.
 Proof.
   intros n m ls s Hreach. pose proof (reachable_inv n m ls s Hreach) as HI. split.
   - exact (inv_panic s HI).
-  - intros c c' Hc Hc' Ha Ha'. apply (inv_hold s HI c Hc) in Ha. apply (inv_hold s HI c' Hc') in Ha'.
+  - split; [intros w Hw; pose proof (inv_w s HI w Hw) as Hx; unfold wwf in Hx; tauto|].
+    intros c c' Hc Hc' Ha Ha'. apply (inv_hold s HI c Hc) in Ha. apply (inv_hold s HI c' Hc') in Ha'.
     congruence.
 Qed.
 
